@@ -16,6 +16,8 @@ for d in sorted(os.listdir('/verif/seeded')):
         note += "; also tried without detection (not the seed's own property): " + ", ".join(notcaught)
     if "ported" in m:
         note += "; ported to the tree after F9"
+    if "obsolete_on_current_tree" in m:
+        note = "obsolete on the current tree: " + m["obsolete_on_current_tree"]
     esc = lambda t: t.replace('|', '\\|').replace('\n', ' ')
     rows.append("| %s | %s | %s | %s | %s |" % (d, esc(m["change"]), esc(m["needs_to_manifest"][:420]), ", ".join(caught) or "—", esc(note)))
 table = "| seed | change | needs to manifest | caught by | note |\n|---|---|---|---|---|\n" + "\n".join(rows) + "\n"
